@@ -174,7 +174,11 @@ CHECKS = {
              '4251 mpint of an independent specification (model = spec), is canonical in the RFC\'s words and parses back; splitting a '
              'name-list at commas and re-joining is the identity on the wire string; the specification strings decode back. Tie: packets '
              'for all payload lengths 0..1999 (0..35000 thorough), boundary and random mpints, KEXINIT messages and RSA / Ed25519 key blobs: '
-             'implementation vs the Coq specification, both directions.',
+             'implementation vs the Coq specification, both directions. The transport-layer messages (DISCONNECT, UNIMPLEMENTED, NEWKEYS, '
+             'KEXDH / KEX_DH_GEX messages) are written in a layout language of the RFC 4251 types: uniquely decodable whatever follows, and - '
+             'for byte, uint32 and string fields - the converse: whatever the decoder accepts is exactly the encoding of what it returned '
+             '(one spelling only); tie: the specification\'s encodings, and encodings with an octet replaced or cut short, through the '
+             'message variants of the implementation, with a compose-back comparison for the single-spelling messages.',
         design_ref='DESIGN.md section 6, C07',
         note='Trusted: Coq kernel; gen_tables.py; extraction + OCaml; differential harness; RFC transcription. Banner, DH/GEX messages, '
              'DSS/ECDSA keys and OpenSSH certificates are covered by the C01/C05 sweeps, not by the specification.',
